@@ -375,7 +375,7 @@ PAIRS = [
                  r"^Result::Ok\{0: tick\}$": "same (whole-aggregate form)",
                  r"^Result::Ok\{0: TickUpdate\{fee_growth_outside_a: tick\.fee_growth_outside_a, fee_growth_outside_b: tick\.fee_growth_outside_b, initialized: tick\.initialized, liquidity_gross: tick\.liquidity_gross, liquidity_net: tick\.liquidity_net, reward_growths_outside: tick\.reward_growths_outside\}\}$": "same",
                  r"^to_reward_growths\(": "Anchor derives the growth array from reward infos; Pinocchio receives the array"}),
-    dict(a="manager::tick_manager::next_fee_growths_inside", b=PM + "pino_next_fee_growths_inside"),
+    dict(a="manager::tick_manager::next_fee_growths_inside", b=PM + "pino_next_fee_growths_inside", semantic="inside_growth"),
     dict(a="manager::tick_manager::next_reward_growths_inside", b=PM + "pino_next_reward_growths_inside",
          na={"method_fields": ["initialized"]},
          nb={"param_index_as_field": {"next_reward_growth_global": ("reward_infos", "growth_global_x64")}}),
@@ -489,7 +489,47 @@ def _same_search_range(a, b):
     return True
 
 
-SEMANTIC = {"search_range": _same_search_range}
+class _Recorder:
+    """Minimal stand-in for a Run: records the outcome of another module's rule function."""
+    def __init__(self, facts):
+        self.facts, self.sdk, self.out = facts, None, []
+
+    def title(self, *a, **k):
+        pass
+
+    def touch(self, *a, **k):
+        pass
+
+    def floor(self, *a, **k):
+        pass
+
+    def check(self, rule, inst, ok, *a, **k):
+        self.out.append((inst, bool(ok)))
+
+    def ok(self, rule, inst, *a, **k):
+        self.out.append((inst, True))
+
+    def bad(self, rule, inst, *a, **k):
+        self.out.append((inst, False))
+
+    def missing(self, rule, inst, *a, **k):
+        self.out.append((inst, False))
+
+
+def _same_inside_growth_table(a, b):
+    """Both sides produce, in each of the nine (lower, upper) situations, the inside growth the table of C07.R4 demands (that rule
+    reads `g - below - above` and `g - (below + above)` alike): written differently, same table."""
+    from rules import C07
+    rec = _Recorder(a.facts)
+    try:
+        C07.R4_inside(rec)
+    except Exception:
+        return False
+    mine = [ok for inst, ok in rec.out if inst.startswith("inside[")]
+    return len(mine) >= 18 and all(mine)
+
+
+SEMANTIC = {"search_range": _same_search_range, "inside_growth": _same_inside_growth_table}
 
 
 def compare_pair(run, rule, a_path, b_path, keys=ALL, subs_b=(), exempt=(), subs_a=(), norm_a=None, norm_b=None, semantic=None):
